@@ -67,7 +67,7 @@ JudgeArray(who, P, q, D, set, r, withQueries, ref) ==
        \o (IF ~withQueries \/ N = 0 \/ P.n[1] # N \/ ~Aligned4(P) \/ 0 \in SeqToSet(T) THEN None
            ELSE LET v == JudgeQueries(T, D, set, r, P, q, ref) IN [h \in 1..Len(v) |-> [clause |-> v[h].clause, class |-> who \o ":" \o v[h].class]])
 
-NoRef == [raised |-> "none", g |-> <<>>]
+NoRef == [raised |-> "none", g |-> <<>>, lowraised |-> "none", lowg |-> <<>>]
 JudgeRun(e) ==
     LET D == TLCEval([i \in 1..Len(e.trees) |-> Descr(e.trees[i], e.w[i])])
         s == TLCEval(Replayed(e))
@@ -109,7 +109,8 @@ JudgeRun(e) ==
                 THEN V("C06.SameSummary", IF e.mode = "real" THEN "real-processes:trees-missing-without-error"
                                           ELSE IF s.early THEN "trees-of-unread-files-missing" ELSE "file-never-taken")
               ELSE JudgeArray("parallel", e.par, e.parq, D, e.set, e.r, TRUE,
-                              IF e.ser_raised = "" /\ e.serq.cons.raised = "" THEN [raised |-> "", g |-> e.serq.cons.g] ELSE NoRef))))
+                              IF e.ser_raised = "" THEN [raised |-> e.serq.cons.raised, g |-> e.serq.cons.g,
+                                                          lowraised |-> e.serq.conslow.raised, lowg |-> e.serq.conslow.g] ELSE NoRef))))
 
 Judge(e) == CASE e.action = "ParRun" -> JudgeRun(e)
 
